@@ -718,6 +718,13 @@ Matrix Matrix::Inverse() const
 		// Gauss Jordan elimination
 		for(unsigned int i = 0; i < N; i++)
 		{
+			// Partial pivoting: move the row with the largest entry of column i (among the rows i,...,N-1) to position i.
+			unsigned int pivot_row = i;
+			for(unsigned int r = i + 1; r < N; r++)
+				if(fabs(A[r][i]) > fabs(A[pivot_row][i]))
+					pivot_row = r;
+			if(pivot_row != i)
+				std::swap(A[i], A[pivot_row]);
 			if(A[i][i] == 0)
 			{
 				std::cerr << "Error in libphysica::Matrix::Inverse(): Diagonal element is zero." << std::endl;
